@@ -109,6 +109,9 @@ def gen_cases(tier: str, seed: int):
             yield {"part": "closed", "entry": ep, "ctx": ctx}
     for what in ("table", "view", "column"):
         yield {"part": "stale_description", "what": what}
+    for i in range(len(FAILS)):
+        if FAILS[i][2] not in ("ctx", "ctx1"):
+            yield {"part": "nop_after_failure", "fail": i}
     n = 1500 if tier == "quick" else 18000
     # every failing statement at least once in each context / transaction state, then random
     combos = [(i, ctx, txn) for i in range(len(FAILS)) for ctx in ("full", "db", "none") for txn in (False, True)]
@@ -155,6 +158,8 @@ def run_case(case: dict, env: core.Env) -> None:
         return _closed(case, env)
     if case["part"] == "stale_description":
         return _stale_description(case, env)
+    if case["part"] == "nop_after_failure":
+        return _nop_after_failure(case, env)
     name, sql, req, cause = FAILS[case["fail"]]
     ctx = case["ctx"]
     # what must happen given the context
@@ -255,6 +260,33 @@ def run_case(case: dict, env: core.Env) -> None:
     finally:
         fs.duck_conn.close()
         tfs.duck_conn.close()
+
+
+def _nop_after_failure(case: dict, env: core.Env) -> None:
+    """With nop_regexes configured: a no-op'd statement after a failure is an execute like any other."""
+    fs = core.new_fs(nop_regexes=[r"^CALL\b", r"^GRANT\b"])
+    try:
+        c0 = fs.connect("db1", "s1")
+        cur = c0.cursor()
+        cur.execute("CREATE TABLE ORDERS (ID INT, NOTE VARCHAR(20)) COMMENT = 'orders'")
+        cur.execute("CREATE TABLE PEOPLE (ID INT)")
+        cur.execute("CREATE VIEW ORDERS_V AS SELECT ID FROM ORDERS")
+        name, sql, req, cause = FAILS[case["fail"]]
+        out = core.run_stmt(cur, sql)
+        if out["ok"]:
+            return
+        env.count("cmp_sqlstate_lifecycle")
+        o2 = core.run_stmt(cur, "CALL something(1)")
+        if not o2["ok"] or o2["rows"] != [("Statement executed successfully.",)]:
+            env.witness("C07/nop-after-failure/nop-statement-failed", f"{o2.get('exc') or o2.get('rows')}")
+        elif cur.sqlstate is not None:
+            env.witness("C07/sqlstate-not-reset/by-nop-statement", f"after failing {sql!r} then CALL: cursor.sqlstate={cur.sqlstate!r}")
+        o3 = core.run_stmt(cur, "CALL p($NO_SUCH_VARIABLE)")
+        if o3["ok"]:
+            env.witness("C07/undefined-variable-in-nop-statement-accepted", str(o3["rows"]))
+        env.nontrivial(("nop_after_failure", name))
+    finally:
+        fs.duck_conn.close()
 
 
 def _stale_description(case: dict, env: core.Env) -> None:
